@@ -153,6 +153,10 @@ def run_scripts_with_oracle(check, real, scripts_iter, stats, violations, max_vi
     flush()
 
 
+QUICK_ROUNDS = {"C01": 3, "C02": 2, "C03": 3, "C04": 3, "C05": 4, "C06": 1, "C07": 1, "C08": 3, "C09": 2, "C10": 2,
+                "C11": 3, "C12": 5, "C13": 3, "C14": 3, "C15": 8, "C16": 5, "C17": 3, "C18": 5, "C19": 3, "C20": 8}
+
+
 class OracleReal:
     """wraps adapter.Real so that the property's direct oracle runs after every op"""
 
@@ -235,7 +239,9 @@ def main_check(check, tier, seed, replay=None):
         else:
             import drift
             moved = drift.drifted(prop, os.environ.get("EG_REPO", "/repo"))
-            rounds = 1 + (2 if (moved and tier == "quick") else 0)
+            # quick tier: several rounds with independent random streams, sized so that every quick check
+            # takes roughly 20-30 s; two more when the anchored source changed since the model was transcribed
+            rounds = (QUICK_ROUNDS.get(prop, 1) if tier == "quick" else 1) + (2 if (moved and tier == "quick") else 0)
             log["regen_source_drift"] = {"anchored_files_changed_since_transcription": moved, "correspondence_rounds": rounds}
             for rnd in range(rounds):
                 r = rng if rnd == 0 else core.rng_for("%s/drift%d" % (prop, rnd), seed)
